@@ -1,11 +1,284 @@
 /-
-C05 — Secure Binary 3.1 (stub while the model is being validated against the implementation).
+C05 — Secure Binary 3.1: hash chain, block keys and commands decode to the input.
+
+Model        : Model/Sb31.lean, first half (`exportSb` = `SecureBinary31.export()` as a state transition of the
+               Python object; command encoders, chunking, hash chain, header, KDF) over Generated/Sb31Consts.lean
+               (tags, struct formats, header/KDF constants, `updTotalLength`, `chainStartHash`, `kdfData`
+               re-extracted from the current source on every run).
+ROM loader   : Model/Sb31.lean, namespace `Rom` — written from the format description with hand-written
+               constants; the theorems below relate the two halves, so a changed source constant breaks them.
+Vocabulary   : Model/Sb31.lean, namespace `Spec` (`hdrSpec`, `Good`, `StateWF`, `DevOK`, `Chained`, `Tiles`).
+Helper lemmas: Proofs/Sb31.lean.  Tie to /repo: byte-for-byte correspondence in harness/props/C05.py.
+
+Every theorem is for EVERY `c : CryptoOps` with `CryptoLaws c` (all keys, data, lengths).  Signatures are
+abstract: `CryptoLaws.verify_sign` is the only fact used; the certificate block is an opaque input whose
+acceptance by the loader (`DevOK.cert`) is a hypothesis here (its construction is property C03) and is
+checked on real certificate blocks by the harness.
 -/
 import SpsdkVerif.Model.Sb31
+import SpsdkVerif.Proofs.Sb31
 
 namespace SpsdkVerif.C05
-open SpsdkVerif SpsdkVerif.Sb31
+open SpsdkVerif SpsdkVerif.Misc SpsdkVerif.Crypto SpsdkVerif.Generated
+open SpsdkVerif.Sb31 SpsdkVerif.Sb31.Rom SpsdkVerif.Sb31.Spec
 
-theorem stub : Generated.Sb31Consts.headerSize = 60 := by decide
+/-! ## 0. the generated constants agree with the format description the loader is written from -/
+
+theorem tags_agree :
+    Sb31Consts.cmdTags = [("NONE", 0), ("ERASE", 1), ("LOAD", 2), ("EXECUTE", 3), ("CALL", 4), ("PROGRAM_FUSES", 5),
+      ("PROGRAM_IFR", 6), ("LOAD_CMAC", 7), ("COPY", 8), ("LOAD_HASH_LOCKING", 9), ("LOAD_KEY_BLOB", 10),
+      ("CONFIGURE_MEMORY", 11), ("FILL_MEMORY", 12), ("FW_VERSION_CHECK", 13), ("RESET", 14)] ∧
+    Sb31Consts.cmdMagic = 0x55AAAA55 := by decide
+
+/-- each of the 14 command classes passes its own tag, and `TAG_TO_CLASS` maps the tag back to the class -/
+theorem classes_agree :
+    Sb31Consts.classTags.length = 14 ∧
+    ∀ p ∈ Sb31Consts.classTags, (p.2, p.1) ∈ Sb31Consts.tagToClass ∧ 1 ≤ p.2 ∧ p.2 ≤ 14 := by decide
+
+theorem formats_agree :
+    Sb31Consts.fmtBaseCmd = [4, 4, 4, 4] ∧ Sb31Consts.fmtBaseCmdLittle = true ∧
+    Sb31Consts.fmtKeyBlob = [4, 2, 2, 4, 4] ∧ Sb31Consts.fmtKeyBlobLittle = true ∧
+    Sb31Consts.fmtSection = [4, 4, 4, 4] ∧ Sb31Consts.fmtSectionLittle = true ∧
+    Sb31Consts.fmtHeader = [4, 2, 2, 4, 4, 4, 8, 4, 4, 4, 4, 16] ∧ Sb31Consts.fmtHeaderLittle = true ∧
+    Sb31Consts.fmtLoadMemBlock = [4, 4, 4, 4] ∧ Sb31Consts.fmtEraseTail = [4, 4, 4, 4] ∧
+    Sb31Consts.fmtCopyTail = [4, 4, 4, 4] ∧ Sb31Consts.fmtFillTail = [4, 4, 4, 4] ∧
+    Sb31Consts.fmtLoadMemBlockLittle = true ∧ Sb31Consts.fmtEraseTailLittle = true ∧
+    Sb31Consts.fmtCopyTailLittle = true ∧ Sb31Consts.fmtFillTailLittle = true ∧
+    Sb31Consts.fmtDataBlock = [4, 0, 0] ∧ Sb31Consts.fmtDataBlockLittle = true ∧
+    Sb31Consts.hasMemIdBlock = [("CmdLoadBase", true), ("CmdProgFuses", false), ("CmdProgIfr", false)] := by decide
+
+theorem constants_agree :
+    Sb31Consts.headerSize = 60 ∧ Sb31Consts.initTotalLength = 60 ∧ Sb31Consts.descLen = 16 ∧ Sb31Consts.chunkLen = 256 ∧
+    Sb31Consts.hdrMagic = [0x73, 0x62, 0x76, 0x33] ∧ Sb31Consts.hdrVersionMajor = 3 ∧ Sb31Consts.hdrVersionMinor = 1 ∧
+    Sb31Consts.loadAlign = 16 ∧ Sb31Consts.keyBlobAlign = 16 ∧ Sb31Consts.hashLockTail = 64 ∧ Sb31Consts.fuseWordSize = 4 ∧
+    Sb31Consts.sectionUid = 1 ∧ Sb31Consts.sectionType = 1 ∧ Sb31Consts.imageTypeNxp = 7 ∧ Sb31Consts.imageTypeOem = 6 ∧
+    Sb31Consts.keyLenOfHash = [(32, 128), (48, 256)] ∧ Sb31Consts.hashOfSigLen = [(64, 32), (96, 48)] ∧
+    Sb31Consts.kdfRights = [0, 1, 2, 3] ∧ Sb31Consts.kdfKeyLens = [128, 256] ∧ Sb31Consts.kdfIterations = [1, 2] ∧
+    Sb31Consts.kdfTwoBlockKeyLen = 256 ∧ Sb31Consts.kdfModeKdk = 1 ∧ Sb31Consts.kdfModeBlk = 2 := by decide
+
+/-- the small integer functions translated from the source -/
+theorem layout_functions (h old cert : Nat) :
+    Sb31Consts.certBlockOffset h = 60 + h ∧ Sb31Consts.blockSize h = 260 + h ∧
+    Sb31Consts.updTotalLength old h cert = 60 + h + cert + 2 * h := by
+  refine ⟨?_, ?_, updTotalLength_eq old h cert⟩ <;> simp only [Sb31Consts.certBlockOffset, Sb31Consts.blockSize] <;> omega
+
+/-! ## 1. commands -/
+
+/-- every command of each of the 14 kinds, with any in-range field values and any data, is read back by the
+    loader exactly, and the loader consumes exactly the command's bytes -/
+theorem cmd31_roundtrip (cmd : Cmd) (h : cmd.wf = true) (rest : Sb31.Bytes) :
+    parseCmd (encCmd cmd ++ rest) = .ok (cmd, rest) := parseCmd_enc cmd h rest
+
+/-- size of every exported command: the documented one, a multiple of 16 -/
+theorem cmd31_size (cmd : Cmd) : (encCmd cmd).length = cmdSize cmd ∧ cmdSize cmd % 16 = 0 :=
+  ⟨encCmd_length cmd, cmdSize_mod cmd⟩
+
+theorem cmd31_stream_roundtrip (cmds : List Cmd) (h : ∀ cmd ∈ cmds, cmd.wf = true) :
+    parseCmds (cmdBytes cmds).length (cmdBytes cmds) = .ok cmds :=
+  parseCmds_enc cmds h _ (cmdBytes_length_ge cmds)
+
+/-- section header + commands + zero padding to the block boundary parse back to the commands -/
+theorem stream_roundtrip (cmds : List Cmd) (h : ∀ cmd ∈ cmds, cmd.wf = true) (hlen : (cmdBytes cmds).length < 4294967296) :
+    parseStream (dataBlocks (cmdStream cmds)).flatten = .ok cmds := by
+  rw [dataBlocks_flatten]; exact parseStream_enc cmds h hlen
+
+/-! ## 2. key derivation -/
+
+/-- what `_derive_key` computes is the documented CMAC counter-mode KDF, for both key sizes, all access rights,
+    every derivation constant (timestamp / block number) and every base key -/
+theorem kdf_documented (c : CryptoOps) (key : Sb31.Bytes) (const rights : Nat) (blk : Bool) (keyBits : Nat)
+    (hr : rights < 4) (hk : keyBits = 128 ∨ keyBits = 256) :
+    deriveKey c key const rights (if blk then Sb31Consts.kdfModeBlk else Sb31Consts.kdfModeKdk) keyBits =
+      kdf c key const rights blk keyBits := (kdf_eq c key const rights blk keyBits hr hk).symm
+
+/-- the key of block `n` is KDF(KDK, n) with KDK = KDF(PCK, timestamp), both under the configured access rights -/
+theorem block_keys (c : CryptoOps) (s : ObjState) (hg : Good c s) (he : s.cfg.encrypted = true) (n : Nat) :
+    blockKey c s n =
+      kdf c (kdf c s.cfg.pck s.cfg.timestamp s.cfg.rights false (keyBitsOf s.cfg.hashLen)) n s.cfg.rights true
+        (keyBitsOf s.cfg.hashLen) := by
+  rw [kdf_eq c _ _ _ false _ (hg.rights he) (keyBitsOf_cases _), kdf_eq c _ _ _ true _ (hg.rights he) (keyBitsOf_cases _)]
+  simp only [blockKey, hg.kdk he, hg.keyLen, Bool.false_eq_true, if_false, if_true]
+
+/-- a freshly constructed object satisfies the invariants -/
+theorem constructor_good (c : CryptoOps) (cfg : Cfg) (s : ObjState) (h : newObj c cfg = .ok s) :
+    Good c s ∧ s.cfg = cfg ∧ s.cmds = [] := newObj_good c cfg s h
+
+/-! ## 3. structure of an exported file -/
+
+variable {c : CryptoOps}
+
+/-- header ‖ H(block₁) ‖ certificate block ‖ signature ‖ block₁ … blockₙ, where block_i carries its number,
+    H(block_{i+1}) and 256 payload bytes, and the last block carries the all-zero hash -/
+theorem chain (hc : CryptoLaws c) (s : ObjState) (hg : Good c s) (r : Rand) :
+    ∃ (h1 sig : Sb31.Bytes) (blocks : List Sb31.Bytes),
+      (exportSb c s r).2 = encHeader (hdrSpec s) ++ (h1 ++ (s.cfg.cert ++ (sig ++ blocks.flatten))) ∧
+      sig = c.sign (sigAlgOf s.cfg.hashLen) s.cfg.sk (encHeader (hdrSpec s) ++ (h1 ++ s.cfg.cert)) r ∧
+      blocks.length = (hdrSpec s).blockCount ∧
+      Chained c (algOfCoord s.cfg.hashLen) s.cfg.hashLen 1 h1 blocks := by
+  refine ⟨(chainOf c s).1, sigOf c s r, (chainOf c s).2, exportSb_bytes c s r, rfl, ?_, ?_⟩
+  · simp only [chainOf]; rw [buildChain_length, dataBlocks_length, cmdStream_length]; rfl
+  · exact buildChain_chained hc s hg.hl _ 1 (dataBlocks_mem _)
+
+/-- header fields versus reality: the block count is ⌈stream / 256⌉ for a stream of 16 + Σ|cmd| bytes, block 0
+    (header ‖ hash ‖ certificate block ‖ signature) is exactly `totalLength` bytes long and is followed by exactly
+    `blockCount` blocks of `blockSize` bytes -/
+theorem block_count_len (hc : CryptoLaws c) (s : ObjState) (hg : Good c s) (wf : StateWF c s) (r : Rand) :
+    (hdrSpec s).blockCount = ((cmdStream s.cmds).length + 255) / 256 ∧
+    (cmdStream s.cmds).length = 16 + (s.cmds.map cmdSize).sum ∧
+    (signedOf c s ++ sigOf c s r).length = (hdrSpec s).totalLength ∧
+    (exportSb c s r).2.take (hdrSpec s).totalLength = signedOf c s ++ sigOf c s r ∧
+    (exportSb c s r).2.length = (hdrSpec s).totalLength + (hdrSpec s).blockCount * (hdrSpec s).blockSize := by
+  have hH : (encHeader (hdrSpec s)).length = 60 := encHeader_length _ (adjustDesc_length _)
+  have hh1 : (chainOf c s).1.length = s.cfg.hashLen := buildChain_fst_length hc s _ _ rfl hg.hl (by simp) _ _
+  have hlen : (signedOf c s ++ sigOf c s r).length = (hdrSpec s).totalLength := by
+    simp only [signedOf, List.length_append, hH, hh1, sigOf, wf.sigLen]
+    simp only [hdrSpec]; omega
+  refine ⟨by rw [cmdStream_length]; rfl, by rw [cmdStream_length]; rfl, hlen, ?_, export_length hc s hg wf r⟩
+  rw [exportSb_bytes]
+  have e : encHeader (hdrSpec s) ++ ((chainOf c s).1 ++ (s.cfg.cert ++ (sigOf c s r ++ (chainOf c s).2.flatten)))
+      = (signedOf c s ++ sigOf c s r) ++ (chainOf c s).2.flatten := by simp [signedOf, List.append_assoc]
+  rw [e]
+  exact List.take_left' hlen
+
+/-- the ranges the loader authenticates (signed range, signature, block 1 … block n) are consecutive and end at
+    the end of the file … -/
+theorem coverage_total (hc : CryptoLaws c) (s : ObjState) (hg : Good c s) (wf : StateWF c s) (r : Rand) :
+    Tiles 0 (coverage (hdrSpec s) s.cfg.hashLen) (exportSb c s r).2.length := by
+  rw [export_length hc s hg wf r]
+  have h2 : 2 * s.cfg.hashLen ≤ (hdrSpec s).totalLength := by simp only [hdrSpec]; omega
+  refine ⟨rfl, by simp, ?_⟩
+  have e : 0 + ((0 : Nat), (hdrSpec s).totalLength - 2 * s.cfg.hashLen).2 +
+      ((hdrSpec s).totalLength - 2 * s.cfg.hashLen, 2 * s.cfg.hashLen).2 = (hdrSpec s).totalLength := by
+    simp only []; omega
+  rw [e]
+  exact tiles_blocks _ _ _
+
+/-- … so every byte index of the file lies inside signature coverage or inside a hashed block -/
+theorem coverage_every_byte (hc : CryptoLaws c) (s : ObjState) (hg : Good c s) (wf : StateWF c s) (r : Rand)
+    (j : Nat) (hj : j < (exportSb c s r).2.length) :
+    ∃ p ∈ coverage (hdrSpec s) s.cfg.hashLen, p.1 ≤ j ∧ j < p.1 + p.2 :=
+  tiles_cover _ _ _ (coverage_total hc s hg wf r) j (Nat.zero_le _) hj
+
+/-! ## 4. the loader accepts what is exported — once, and after any history -/
+
+/-- encrypted and plain containers, PCK of any size, access rights 0..3, SHA-256 and SHA-384 containers: the
+    loader accepts the export and returns exactly the header values and the commands of the object -/
+theorem rom_accepts (hc : CryptoLaws c) (s : ObjState) (hg : Good c s) (wf : StateWF c s)
+    (dev : Dev) (obs : List SigOb) (hd : DevOK c dev s obs) (r : Rand) :
+    romLoad c dev (exportSb c s r).2 =
+      .ok ⟨hdrSpec s, s.cmds, obs ++ [⟨s.cfg.hashLen, c.pubOf s.cfg.sk, signedOf c s, sigOf c s r⟩]⟩ :=
+  romLoad_export hc s hg wf dev obs hd r
+
+/-- what a history of `add_command` / `export` calls leaves behind: the configuration and the derived keys are
+    untouched and the command list is the old one plus the added commands (in particular: nothing an export
+    stores influences later behaviour) -/
+theorem history_frame (c : CryptoOps) (s : ObjState) (ops : List Op) :
+    (run c s ops).cfg = s.cfg ∧ (run c s ops).keyLen = s.keyLen ∧ (run c s ops).kdk = s.kdk ∧
+    (run c s ops).cmds = s.cmds ++ addsOf ops := run_frame c ops s
+
+/-- HISTORY: after ANY sequence of `add_command` and `export` calls on one object, the next export is accepted
+    and decodes to the object's configuration and its current command list -/
+theorem history (hc : CryptoLaws c) (s : ObjState) (hg : Good c s) (ops : List Op)
+    (wf : StateWF c (run c s ops)) (dev : Dev) (obs : List SigOb) (hd : DevOK c dev (run c s ops) obs) (r : Rand) :
+    ∃ ob, romLoad c dev (exportSb c (run c s ops) r).2 = .ok ⟨hdrSpec (run c s ops), s.cmds ++ addsOf ops, ob⟩ := by
+  have h := romLoad_export hc _ (run_good s hg ops) wf dev obs hd r
+  rw [(run_frame c ops s).2.2.2] at h
+  exact ⟨_, h⟩
+
+/-- the clause the property adds over golden tests: export the same object n+1 times — the last file is accepted
+    and decodes to the same header values and commands as the first (induction over the history inside `run_frame`) -/
+theorem history_exports (hc : CryptoLaws c) (s : ObjState) (hg : Good c s) (wf : StateWF c s)
+    (dev : Dev) (obs : List SigOb) (hd : DevOK c dev s obs) (rs : List Rand) (r : Rand) :
+    ∃ ob, romLoad c dev (exportSb c (run c s (rs.map Op.exp)) r).2 = .ok ⟨hdrSpec s, s.cmds, ob⟩ := by
+  have hadds : addsOf (rs.map Op.exp) = [] := by induction rs with
+    | nil => rfl
+    | cons x xs ih => simpa [addsOf] using ih
+  obtain ⟨h1, h2, h3, h4⟩ := run_frame c (rs.map Op.exp) s
+  rw [hadds, List.append_nil] at h4
+  have wf' : StateWF c (run c s (rs.map Op.exp)) :=
+    ⟨by rw [h4]; exact wf.cmds, by rw [h4]; exact wf.size, by rw [h1]; exact wf.flags, by rw [h1]; exact wf.fwVersion,
+     by rw [h1]; exact wf.timestamp, by rw [h1]; exact wf.cert, by rw [h1]; exact wf.sigLen⟩
+  have hd' : DevOK c dev (run c s (rs.map Op.exp)) obs :=
+    ⟨by rw [h1]; exact hd.pck, by rw [h1]; exact hd.rights, by rw [h1]; exact hd.encrypted, by rw [h1]; exact hd.cert⟩
+  obtain ⟨ob, h⟩ := history hc s hg (rs.map Op.exp) wf' dev obs hd' r
+  refine ⟨ob, ?_⟩
+  rw [h, hadds, List.append_nil]
+  have : hdrSpec (run c s (rs.map Op.exp)) = hdrSpec s := by simp only [hdrSpec, h1, h4]
+  rw [this]
+
+/-! ## non-vacuity: the hypotheses are satisfiable by a concrete, non-trivial container -/
+
+/-- a toy instance of the primitives (identity "cipher" on 16-byte blocks, constant hash, constant signatures);
+    it satisfies `CryptoLaws`, which is all the theorems use -/
+def norm16 (b : Sb31.Bytes) : Sb31.Bytes := (b ++ zeros 16).take 16
+
+def toyOps : CryptoOps where
+  hash := fun a _ => zeros a.size
+  encBlk := fun _ b => norm16 b
+  decBlk := fun _ b => norm16 b
+  sm4Enc := fun _ b => b
+  sm4Dec := fun _ b => b
+  sign := fun a _ _ _ => match a with | .ecdsa h => zeros (2 * h.size) | _ => []
+  verify := fun _ _ _ _ => true
+  pubOf := fun sk => sk
+
+theorem norm16_length (b : Sb31.Bytes) : (norm16 b).length = 16 := by simp [norm16, zeros]
+theorem norm16_id (b : Sb31.Bytes) (h : b.length = 16) : norm16 b = b := by
+  simp [norm16, List.take_append_of_le_length (Nat.le_of_eq h.symm), List.take_of_length_le (Nat.le_of_eq h)]
+
+theorem toyLaws : CryptoLaws toyOps where
+  dec_enc := fun _ b h => by simp [toyOps, norm16_id b h]
+  enc_dec := fun _ b h => by simp [toyOps, norm16_id b h]
+  enc_len := fun _ b => norm16_length b
+  dec_len := fun _ b => norm16_length b
+  hash_len := fun a _ => by simp [toyOps, zeros]
+  verify_sign := fun _ _ _ _ => rfl
+
+/-- a root public key (64 bytes), a CA certificate block over it, and a container with 5 commands of 5 kinds -/
+def exRootPub : Sb31.Bytes := List.replicate 64 7
+def exCert : Sb31.Bytes := [0x63, 0x68, 0x64, 0x72, 1, 0, 2, 0, 80, 0, 0, 0, 0x11, 0, 0, 0x80] ++ exRootPub
+def exCfg : Cfg :=
+  { hashLen := 32, fwVersion := 3, flags := 0, timestamp := 0x1234, description := [0x61, 0x62], isNxp := false,
+    encrypted := true, pck := List.replicate 32 1, rights := 3, cert := exCert, sk := exRootPub }
+def exCmds : List Cmd :=
+  [.erase 0 4096 0, .load 0x100 [1, 2, 3, 4, 5] 0, .progFuses 8 [1, 0, 0, 0], .loadKeyBlob 4 [9, 9, 9] 16, .reset]
+def exDev : Dev := ⟨List.replicate 32 1, 3, true, zeros 32⟩
+
+example : exCmds.all Cmd.wf = true := by decide
+
+/-- the object after some earlier exports: the mutable members hold stale values -/
+def exState : ObjState :=
+  { cfg := exCfg, cmds := exCmds, keyLen := 128,
+    kdk := deriveKey toyOps exCfg.pck exCfg.timestamp exCfg.rights Sb31Consts.kdfModeKdk 128,
+    blockCount := 7, totalLength := 12345, finalHash := [1, 2, 3] }
+
+theorem exGood : Good toyOps exState :=
+  ⟨Or.inl rfl, rfl, fun _ => by decide, fun _ => rfl⟩
+
+theorem exWF : StateWF toyOps exState :=
+  ⟨by decide, by rw [cmdBytes_length]; decide, by decide, by decide, by decide, by decide, fun _ _ => by simp [toyOps, sigAlgOf, exState, exCfg, hashAlgOf, HashAlg.size, zeros]⟩
+
+theorem exDevOK : DevOK toyOps exDev exState [] :=
+  ⟨rfl, rfl, rfl, by decide⟩
+
+/-- three exports in a row of the example object: the third file is accepted and decodes to the 5 commands -/
+example : ∃ ob, romLoad toyOps exDev (exportSb toyOps (run toyOps exState [.exp [], .exp [1]]) [2]).2 =
+    .ok ⟨hdrSpec exState, exCmds, ob⟩ :=
+  history_exports toyLaws exState exGood exWF exDev [] exDevOK [[], [1]] [2]
+
+example : (hdrSpec exState).blockCount = 1 ∧ (hdrSpec exState).totalLength = 236 := by decide
+
+/-- every one of the 14 kinds is in the domain of `cmd31_roundtrip` with non-trivial field values -/
+example : [Cmd.erase 0 4096 1, .load 0x100 [1, 2, 3] 2, .execute 0xFFFFFFFF, .call 8, .progFuses 16 [1, 2, 3, 4],
+    .progIfr 32 [5], .loadCmac 64 [6, 7] 0, .copy 1 2 3 4 5, .loadHashLocking 128 [8] 0, .loadKeyBlob 0xFFFF [9] 0xFFFF,
+    .configureMemory 0x2000 9, .fillMemory 0 64 0xA5A5A5A5, .fwVersionCheck 7 2, .reset].all Cmd.wf = true := by decide
+
+example : parseCmd (encCmd (.loadKeyBlob 0xFFFF [9] 0xFFFF) ++ [0xAA]) = .ok (.loadKeyBlob 0xFFFF [9] 0xFFFF, [0xAA]) :=
+  cmd31_roundtrip _ (by decide) _
+
+/-- the domain restriction on PROGRAM_FUSES is needed: `CmdProgFuses` stores `len(data) // 4`, so five data bytes
+    do not come back (the loader reads one word) -/
+theorem fuses_domain_needed :
+    parseCmd (encCmd (.progFuses 0 [1, 2, 3, 4, 5])) ≠ .ok (.progFuses 0 [1, 2, 3, 4, 5], []) := by decide
 
 end SpsdkVerif.C05
